@@ -97,8 +97,8 @@ kani_unit("air_parsers", "winter-air", "air/src/proof/mod.rs", "kani/air_parsers
 
 native_unit("security_native", "winter-air", "air", "native/security_bounded.rs", ["C18", "C12"],
             ["proof::get_proven_security", "proof::proven_security_protocol_for_m", "proof::get_conjectured_security", "Proof::security_level", "Hasher::COLLISION_RESISTANCE of the six hashers", "ProofOptions::new"],
-            "ProofOptions::new accepts exactly the documented parameter ranges and stores what it accepts unchanged; the collision-resistance constant of every hasher is the birthday bound of its digest (128 / 96 / 4 * modulus bits / 2); neither the proven nor the conjectured estimate decreases when the number of queries, the grinding factor, the extension degree or the hash function's collision resistance grows (everything else fixed), and neither exceeds the collision resistance",
-            "NATIVE EXECUTION, not a proof (floating-point code: CBMC has no faithful libm): f62 / f64 / f128 x extension degrees x trace lengths 2^3, 2^8, 2^12, 2^16, 2^20 x blowup 2, 4, 8, 16, 64 x folding 2, 4, 8, 16 x remainder degree 0, 7, 31 x queries 1..=255 x grinding 0..=32 x collision resistance 96 / 128",
+            "ProofOptions::new accepts exactly the documented parameter ranges and stores what it accepts unchanged; the collision-resistance constant of every hasher is the birthday bound of its digest (128 / 96 / 4 * modulus bits / 2); the proven estimate EQUALS the documented formula (eprint 2022/1216 Theorem 8 / eq. 7 as laid out in the source comments, written independently in the check with the same floating-point operations: the optimum over the proximity parameters 3 <= m < m_max, every term truncated before the minimum, capped by the collision resistance); neither the proven nor the conjectured estimate decreases when the number of queries, the grinding factor, the extension degree or the hash function's collision resistance grows (everything else fixed), and neither exceeds the collision resistance",
+            "NATIVE EXECUTION, not a proof (floating-point code: CBMC has no faithful libm): f62 / f64 / f128 x extension degrees x trace lengths 2^3, 2^8, 2^12, 2^16, 2^20 x blowup 2, 4, 8, 16, 64 x folding 2, 4, 8, 16 x remainder degree 0, 7, 31 x queries 1..=255 x grinding 0..=32 x collision resistance 96 / 128; formula comparison: trace lengths 2^3 .. 2^7, 2^10, 2^16, 2^20 x blowup 2 .. 64 x 70 query counts x grinding 0, 10, 32 x both collision resistances",
             timeout=1800)
 
 
